@@ -50,7 +50,8 @@ MCCfg(p, i, dp, fam, e, def, multi, extra, trunk, peer) ==
 Rt(t, dst, dev, gw, scope) == [table |-> t, dst |-> dst, dev |-> dev, gw |-> gw, scope |-> scope, metric |-> 0, type |-> "unicast", proto |-> "boot"]
 Rl(f, prio, src, dst, oif, t) == [fam |-> f, prio |-> prio, src |-> src, dst |-> dst, iif |-> "", oif |-> oif, table |-> t, proto |-> "boot"]
 Cf(n, dev, addrs, routes, rules, sys) == [ns |-> n, dev |-> dev, addrs |-> addrs, neighs |-> <<>>, routes |-> routes, rules |-> rules, sysctl |-> sys]
-Lk(n, name, idx, kind, peer) == [ns |-> n, name |-> name, idx |-> idx, kind |-> kind, peer |-> peer]
+WithNeighs(cf, ng) == [cf EXCEPT !.neighs = ng]
+Lk(n, name, idx, kind, peer) == [ns |-> n, name |-> name, idx |-> idx, kind |-> kind, peer |-> peer, mac |-> "mac-" \o name]
 FamSeq(c) == (IF 4 \in Fams(c) THEN <<4>> ELSE <<>>) \o (IF 6 \in Fams(c) THEN <<6>> ELSE <<>>)
 Flat(F(_), s) == FoldLeft(LAMBDA acc, x : acc \o F(x), <<>>, s)
 If(b, s) == IF b THEN s ELSE <<>>
@@ -78,7 +79,8 @@ PodConf(c, alen(_), maingw(_), more(_)) ==
 RefSetup(c) ==
     CASE c.dp = "policy" ->
         [links |-> <<Lk(c.pod, c.ifname, PodIdx(c), "veth", HostIdx(c)), Lk(0, c.hostveth, HostIdx(c), "veth", PodIdx(c))>>,
-         confs |-> << PodConf(c, LAMBDA f : MaxLen(IPof(c, f)), LAMBDA f : LinkIP(f), LAMBDA f : <<>>),
+         confs |-> << WithNeighs(PodConf(c, LAMBDA f : MaxLen(IPof(c, f)), LAMBDA f : LinkIP(f), LAMBDA f : <<>>),
+                                 Flat(LAMBDA f : If(~Bad("no_stub_neighbour"), <<[dev |-> c.ifname, ip |-> LinkIP(f), mac |-> "mac-" \o c.hostveth]>>), FamSeq(c))),
                       Cf(0, c.eni, <<>>,
                          Flat(LAMBDA f : <<Rt(EniTable(c), Default(f), c.eni,
                                               IF c.strip /\ ~Bad("trunk_uses_member_gateway") THEN EGWof(c, f) ELSE GWof(c, f), "universe")>>, FamSeq(c)),
@@ -122,8 +124,8 @@ RefTeardown(S, gone) ==
 
 (* ---------------------------------------------------------------- initial node: eth0 with the node addresses and default routes, two ENIs *)
 NodeNs ==
-    LET s0 == [EmptyNs EXCEPT !.links = { [name |-> "lo", idx |-> 1, kind |-> "device", peer |-> 0], [name |-> "eth0", idx |-> 2, kind |-> "device", peer |-> 0],
-                                          [name |-> "eth1", idx |-> 3, kind |-> "device", peer |-> 0], [name |-> "eth2", idx |-> 4, kind |-> "device", peer |-> 0] }]
+    LET s0 == [EmptyNs EXCEPT !.links = { [name |-> "lo", idx |-> 1, kind |-> "device", peer |-> 0, mac |-> ""], [name |-> "eth0", idx |-> 2, kind |-> "device", peer |-> 0, mac |-> "mac-eth0"],
+                                          [name |-> "eth1", idx |-> 3, kind |-> "device", peer |-> 0, mac |-> "mac-eth1"], [name |-> "eth2", idx |-> 4, kind |-> "device", peer |-> 0, mac |-> "mac-eth2"] }]
         s1 == AddAddr(AddAddr(s0, "eth0", <<10, 88, 0, 10>>, 24), "eth0", B16(136, 0, 0, 16), 64)
         s2 == AddRoute(s1, [Rt(TMain, Default(4), "eth0", <<10, 88, 0, 253>>, "universe") EXCEPT !.proto = "static"])
     IN  AddRoute(s2, [Rt(TMain, Default(6), "eth0", B16(136, 0, 255, 253), "universe") EXCEPT !.proto = "static", !.metric = 1024])
